@@ -224,11 +224,11 @@ theorem handleAck_state (s : Srv) (t : Eio) (nsp : Option Str) (id : Option Nat)
   unfold handleAck
   dsimp only
   split
-  · rename_i _ _ sid i hs hi
+  · rename_i sid i hs
     split
     · exact Or.inl rfl
     · right
-      refine ⟨sid, i, hs, hi, ?_⟩
+      refine ⟨sid, i, hs, rfl, ?_⟩
       split
       · rfl
       · split <;> rfl
@@ -382,13 +382,131 @@ theorem WF.drain {s : Srv} (h : WF s) (cfg : Cfg) (outs : List Out) (bs : List B
 
 /-! ### every input, every history -/
 
+/-- the first half of `call()`: the emit with the internal callback -/
+def callStart (s : Srv) (ev : Str) (d : Data) (ns : Ns) (sid : Sid) : Srv × List Out :=
+  emit { s with nCall := s.nCall + 1 } ev d ns (.one sid) [] (some (.call s.nCall))
+
+/-- what `call()` returns after the wait -/
+def callOutcome (s : Srv) (n : Nat) : Out :=
+  match s.callDone.find? (fun c => c.1 = n) with
+  | some c => .result (callResult c.2)
+  | none => .timeout
+
+theorem step_call (dec : Str → Except Err (Packet × Nat)) (cfg : Cfg) (s : Srv) (ev : Str)
+    (d : Data) (ns : Ns) (sid : Sid) (during : List Input) :
+    step dec cfg s (.call ev d ns sid during) =
+      if !cfg.asyncHandlers then (s, [.raised .other])
+      else
+        ((run dec cfg (callStart s ev d ns sid).1 during).1,
+          (callStart s ev d ns sid).2 ++ (run dec cfg (callStart s ev d ns sid).1 during).2 ++
+            [callOutcome (run dec cfg (callStart s ev d ns sid).1 during).1 s.nCall]) := by
+  rw [step]
+  split
+  · rfl
+  · simp only [callStart, callOutcome]
+    split <;> rename_i h <;> simp only [h]
+
+theorem run_nil (dec : Str → Except Err (Packet × Nat)) (cfg : Cfg) (s : Srv) :
+    run dec cfg s [] = (s, []) := by rw [run]
+
+theorem run_cons (dec : Str → Except Err (Packet × Nat)) (cfg : Cfg) (s : Srv) (i : Input)
+    (is : List Input) :
+    run dec cfg s (i :: is) =
+      ((run dec cfg (step dec cfg s i).1 is).1,
+        (step dec cfg s i).2 ++ (run dec cfg (step dec cfg s i).1 is).2) := by rw [run]
+
+/-- Induction over inputs and histories together (`call()` contains a history). -/
+theorem step_run_induct (dec : Str → Except Err (Packet × Nat)) (cfg : Cfg)
+    (P : Srv → Input → Prop) (Q : Srv → List Input → Prop)
+    (hbase : ∀ s i, (∀ ev d ns sid during, i ≠ .call ev d ns sid during) → P s i)
+    (hcall : ∀ s ev d ns sid during,
+      (cfg.asyncHandlers = true → Q (callStart s ev d ns sid).1 during) →
+      P s (.call ev d ns sid during))
+    (hnil : ∀ s, Q s [])
+    (hcons : ∀ s i is, P s i → Q (step dec cfg s i).1 is → Q s (i :: is)) :
+    (∀ s i, P s i) ∧ (∀ s is, Q s is) := by
+  apply step.mutual_induct dec cfg (motive_1 := P) (motive_2 := Q)
+  case case6 =>
+    intro s ev d ns sid during _ n s1 o1 he s2 o2 _ _ _ _ ih
+    apply hcall
+    have : (callStart s ev d ns sid).1 = s1 := by simp only [callStart]; rw [he]
+    rw [this]; exact fun _ => ih
+  case case7 =>
+    intro s ev d ns sid during _ n s1 o1 he s2 o2 _ _ ih
+    apply hcall
+    have : (callStart s ev d ns sid).1 = s1 := by simp only [callStart]; rw [he]
+    rw [this]; exact fun _ => ih
+  case case5 =>
+    intro s ev d ns sid during hc
+    apply hcall
+    intro ha; rw [ha] at hc; cases hc
+  case case22 => exact hnil
+  case case23 => intro s i is; exact hcons s i is
+  all_goals (intros; apply hbase; intros; simp)
+
+theorem WF.callStart {s : Srv} (h : WF s) (ev : Str) (d : Data) (ns : Ns) (sid : Sid) :
+    WF (callStart s ev d ns sid).1 := by
+  have h1 : WF { s with nCall := s.nCall + 1 } := h.of_core rfl
+  exact h1.emit ..
+
 theorem WF.step_run (dec : Str → Except Err (Packet × Nat)) (cfg : Cfg) :
     (∀ (s : Srv) (i : Input), WF s → WF (step dec cfg s i).1) ∧
     (∀ (s : Srv) (is : List Input), WF s → WF (run dec cfg s is).1) := by
-  apply step.mutual_induct dec cfg
-    (motive_1 := fun s i => WF s → WF (step dec cfg s i).1)
-    (motive_2 := fun s is => WF s → WF (run dec cfg s is).1)
-  all_goals intros
-  all_goals sorry
+  apply step_run_induct dec cfg
+    (P := fun s i => WF s → WF (step dec cfg s i).1)
+    (Q := fun s is => WF s → WF (run dec cfg s is).1)
+  · intro s i hi h
+    cases i with
+    | eioConnect t => rw [step]; exact ⟨h.toWF0.eioConnect t, h.pendingNil⟩
+    | frame t v => rw [step]; exact h.handleFrame dec cfg t v
+    | eioLost t r => rw [step]; exact h.handleLost cfg t r
+    | emit ev d ns to skip cb => rw [step]; exact h.emit ..
+    | call ev d ns sid during => exact absurd rfl (hi ev d ns sid during)
+    | apiDisconnect sid ns => rw [step]; exact h.apiDisconnect cfg sid ns
+    | enterRoom sid ns room =>
+      rw [step]
+      split
+      · rename_i r he; exact ⟨h.toWF0.enter he, h.pendingNil⟩
+      · exact h
+    | leaveRoom sid ns room => rw [step]; exact ⟨h.toWF0.leave ns sid room, h.pendingNil⟩
+    | closeRoom ns room => rw [step]; exact ⟨h.toWF0.closeRoom ns room, h.pendingNil⟩
+    | rooms sid ns => rw [step]; exact h
+    | getSession sid ns =>
+      rw [step]
+      split
+      · exact h
+      · rename_i t ht
+        split
+        · exact h
+        · exact h.sessSet (sessSock_open ht) ..
+    | saveSession sid ns v =>
+      rw [step]
+      split
+      · exact h
+      · rename_i t ht; exact h.sessSet (sessSock_open ht) ..
+    | sessionBlock sid ns k v =>
+      rw [step]
+      split
+      · exact h
+      · rename_i t ht; exact h.sessSet (sessSock_open ht) ..
+    | settle =>
+      rw [step]
+      have h1 : WF { s with bg := [] } := h.of_core rfl
+      exact h1.drain ..
+  · intro s ev d ns sid during ih h
+    rw [step_call]
+    split
+    · exact h
+    · rename_i hc
+      exact ih (by simpa using hc) (h.callStart ev d ns sid)
+  · intro s h; rw [run_nil]; exact h
+  · intro s i is h1 h2 h
+    rw [run_cons]; exact h2 (h1 h)
+
+theorem WF.step {s : Srv} (h : WF s) (dec : Str → Except Err (Packet × Nat)) (cfg : Cfg)
+    (i : Input) : WF (step dec cfg s i).1 := (WF.step_run dec cfg).1 s i h
+
+theorem WF.run {s : Srv} (h : WF s) (dec : Str → Except Err (Packet × Nat)) (cfg : Cfg)
+    (is : List Input) : WF (run dec cfg s is).1 := (WF.step_run dec cfg).2 s is h
 
 end Sio.Server
